@@ -287,6 +287,14 @@ def facts_of(R):
     F['sync_bg_push_back'] = count(r'core\.queue\.push_back\(unsafe_job\)', sbg) == 1 and count(r'push_front', sbg) == 0
     F['sync_bg_registers_before_push'] = bool(re.search(r'wake_blocked\.push\(.*?core\.queue\.push_back\(unsafe_job\)', sbg, flags=re.S))
     F['sync_bg_resched_if_idle'] = bool(re.search(r'core\.state\s*==\s*QueueState::Idle\s*\}\s*;\s*if\s+need_reschedule\s*\{\s*self\.reschedule_queue\(queue\)\s*;\s*\}', sbg))
+    # set_max_threads = store the maximum, then the wake-up loop (no spawning of its own, no clamping)
+    try: smt = re.sub(r'\s+', ' ', [m for m in re.finditer(r'#\[cfg\(not\(target_arch\s*=\s*"wasm32"\)\)\]\s*pub\s+fn\s+set_max_threads\(&self,\s*max_threads:\s*usize\)\s*', ds)][0].group(0))
+    except IndexError: smt = None
+    if smt is not None:
+        i = ds.index('{', re.search(r'#\[cfg\(not\(target_arch\s*=\s*"wasm32"\)\)\]\s*pub\s+fn\s+set_max_threads', ds).end())
+        body = re.sub(r'\s+', ' ', ds[i:match_brace(ds, i) + 1]).strip()
+    else: body = ''
+    F['set_max_threads_stores_then_schedules'] = body == '{ { *self.core.max_threads.lock().expect("Max threads lock") = max_threads }; while self.schedule_thread() {} }'
     # the decision of sync / try_sync / sync_no_panic is dispatched to the routine the model's action names mean
     def dispatch(fn, pairs):
         b = find_fn(ds, fn, 'fact:dispatch_' + fn, impl='Scheduler')
